@@ -288,7 +288,7 @@ def ks_agree(got, status, ys, ycap):
     exp = [fmt_path(p) for p in ys]
     if status == 'more':
         return mys[:ycap + 1] == exp[:ycap + 1] and len(mys) >= ycap + 1
-    return head.strip() == status and mys == exp
+    return head.split()[0] == status and mys == exp
 
 
 def brute_matchings(rings, db, pyr, cap=20000):
@@ -401,6 +401,119 @@ def labelled(rng, rings, p_db=0.2, p_pyr=0.2):
     pyr = [n for n in ids if rng.random() < p_pyr]
     rng.shuffle(db)
     return db, pyr
+
+
+# ------------------------------------------------------------------------------------------------
+# coordinate (order 8) bonds: aromaticity perception of the organic part must not depend on them
+# ------------------------------------------------------------------------------------------------
+
+def has_coordinate(mol):
+    return any(int(b) == 8 for _, _, b in mol.bonds())
+
+
+def edit_ints(ints, drop8=False, metal=None):
+    """wire ints -> wire ints: without the order-8 bonds (`drop8`) or with one more atom `metal = (z, charge, [ring atoms])`
+    bound by order-8 bonds (dict orders of everything else untouched)"""
+    it = iter(ints)
+    n = next(it)
+    rows = []
+    for _ in range(n):
+        head = [next(it) for _ in range(8)]
+        nb = [(next(it), next(it), next(it)) for _ in range(head[7])]
+        rows.append((head, nb))
+    if drop8:
+        rows = [(h, [x for x in nb if x[1] != 8]) for h, nb in rows]
+    if metal is not None:
+        z, charge, to = metal
+        mid = max(h[0] for h, _ in rows) + 1
+        rows = [(h, nb + ([(mid, 8, -1)] if h[0] in to else [])) for h, nb in rows]
+        rows.append(([mid, z, 0, charge, 0, 0, -1, 0], [(a, 8, -1) for a in to]))
+    out = [len(rows)]
+    for h, nb in rows:
+        out += h[:7] + [len(nb)]
+        for x in nb:
+            out += list(x)
+    return out
+
+
+def coordinate_domain(k):
+    """the coordinate bonds of a Kekulé form end (on the organic side) at carbon atoms or at sp2 nitrogens: the atom types
+    for which thiele() consults `not_special_connectivity` only. (Donor atoms O/S/N(sp3)/B/P that carry a coordinate bond
+    are counted with it by the documented `len(bonds[n])` tests and are outside this clause.)"""
+    for n, m, b in k.bonds():
+        if int(b) != 8:
+            continue
+        for x in (n, m):
+            a = k._atoms[x]
+            if a.atomic_number in (5, 8, 15, 16, 34) or (a.atomic_number == 7 and a.hybridization != 2):
+                if any(int(bb) != 8 for bb in k._bonds[x].values()):
+                    return False
+    return True
+
+
+def coordinate_failures(k):
+    """`k`: a Kekulé form with coordinate bonds. thiele() must aromatise exactly the bonds it aromatises in the same
+    molecule without the coordinate bonds (same numbering, same dict orders)."""
+    if not has_coordinate(k) or has_aromatic(k) or not coordinate_domain(k):
+        return []
+    k0, _ = wire.ints_to_mol(edit_ints(wire.mol_to_ints(k), drop8=True), calc=True)
+    t, t0 = k.copy(), k0.copy()
+    st, ret = outcome(lambda: t.thiele(fix_tautomers=False))
+    st0, ret0 = outcome(lambda: t0.thiele(fix_tautomers=False))
+    if st0 != 'ok':
+        return []
+    if st != 'ok':
+        return [('coordinate-bond-changes-aromaticity', f'thiele() {st} with the coordinate bonds, ok without')]
+    a, a0 = arom_set(t), arom_set(t0)
+    if a != a0 or bool(ret) != bool(ret0):
+        return [('coordinate-bond-changes-aromaticity',
+                 f'aromatic bonds with the coordinate bonds {sorted(a)} (returned {ret!r}), without them {sorted(a0)} '
+                 f'(returned {ret0!r})')]
+    return []
+
+
+PI_CORES = ['c1ccccc1', 'Cc1ccccc1', 'COc1ccccc1', 'CC(=O)c1ccccc1', 'Cc1cccc(C)c1', 'c1ccc2ccccc2c1', 'c1ccc2cc3ccccc3cc2c1',
+            'c1ccncc1', 'Cc1ccncc1', 'c1ccc2ncccc2c1', '[cH-]1cccc1', 'C[c-]1cccc1', 'CC(=O)[c-]1cccc1', 'c1ccc2[cH-]ccc2c1',
+            'c1ccsc1', 'Cc1ccsc1', 'c1cc[nH]c1', 'c1ccoc1', 'c1ccc2[nH]ccc2c1', 'c1ccc(cc1)c1ccccc1', 'Oc1ccccc1', 'Nc1ccccc1',
+            'Cc1cc(C)cc(C)c1', 'c1ccc2c(c1)ccc1ccccc12']
+PI_METALS = [(24, 0), (26, 2), (44, 0), (25, 1)]
+
+
+def pi_complexes(rng=None, cap=None):
+    """arene / cyclopentadienyl / hetero-arene complexes drawn with coordinate bonds: for every core, every single ring
+    carbon or pyridine nitrogen (substituted and ring-fusion positions included), every adjacent pair and every whole ring as
+    the coordinated set; each as the aromatic form and as every Kekulé form of the core"""
+    out = []
+    for ci, core in enumerate(PI_CORES):
+        m = molgen.parse(core)
+        if m is None:
+            continue
+        forms = [('arom', m)]
+        st, fs = outcome(lambda: list(itertools.islice(m.copy().enumerate_kekule(), 4)))
+        if st == 'ok':
+            forms += [(f'kek{i}', f) for i, f in enumerate(fs)]
+        rings = [list(r) for r in m.sssr]
+        ok = lambda x: m._atoms[x].atomic_number == 6 or (m._atoms[x].atomic_number == 7 and len(m._bonds[x]) == 2
+                                                         and not m._atoms[x].implicit_hydrogens)
+        sets = []
+        for r in rings:
+            cs = [x for x in r if ok(x)]
+            sets += [(x,) for x in cs]
+            sets += [(a, b) for a, b in zip(r, r[1:] + r[:1]) if ok(a) and ok(b)]
+            sets.append(tuple(cs))
+        sets = list(dict.fromkeys(tuple(sorted(x)) for x in sets if x))
+        for si, to in enumerate(sets):
+            z, ch = PI_METALS[(ci + si) % len(PI_METALS)]
+            for fname, f in forms:
+                ints = edit_ints(wire.mol_to_ints(f), metal=(z, ch, set(to)))
+                try:
+                    mm, _ = wire.ints_to_mol(ints, calc=True)
+                except Exception:  # noqa
+                    continue
+                out.append((f'{core}~{z}@{",".join(map(str, to))}:{fname}', mm))
+    if cap is not None and rng is not None and len(out) > cap:
+        out = rng.sample(out, cap)
+    return out
 
 
 def wire_core(resp):
@@ -1348,6 +1461,10 @@ def mol_cases(tag, mol, batch, rel, rng, renum=True, dist=None, known=None, extr
     if st != 'ok' or ret is not False or not eq_snap(k, k2):
         rel('kekule-not-idempotent', f'{tag}: second kekule(): {st} {ret!r} {diff_snap(k, k2)}', wire.mol_to_ints(k))
     kints = wire.mol_to_ints(k)
+    if has_coordinate(k):
+        d('coordinate-bonds:' + ('checked' if coordinate_domain(k) else 'donor-atom-coordinated(outside)'))
+        for clause, det in coordinate_failures(k):
+            rel(clause, f'{tag}: {det}', kints)
     t = k.copy()
     st, ret = outcome(lambda: t.thiele())
     d('thiele:' + st + (':arom' if st == 'ok' and ret else ''))
@@ -1726,7 +1843,7 @@ def correspond(ctx):
 def ks_domain(rings):
     """what `__prepare_rings` guarantees of a component: symmetric simple graph, closed, every degree 2 or 3"""
     adj = dict(rings)
-    return (len(adj) == len(rings) and all(len(ms) in (2, 3) and len(set(ms)) == len(ms) for ms in adj.values())
+    return (len(adj) == len(rings) and 0 not in adj and all(len(ms) in (2, 3) and len(set(ms)) == len(ms) for ms in adj.values())
             and all(m in adj and m != n and n in adj[m] for n, ms in adj.items() for m in ms))
 
 
@@ -1745,6 +1862,17 @@ def ks_check(ctx, batch_keys, ycap, origin):
         ctx.count(('ks', k), nontrivial=True)
         ctx.dist(f'ks:{origin}:' + status.replace('crash:', 'crash-'))
         cur = _state['ks_calls'].get(k) if origin == 'recorded' else None
+        if got is not None and ('dom=1' in got[i].partition(' | ')[0]) != dom:
+            # `graphOKb` (the hypothesis of search_sound_partial, decided by the driver) vs the harness' own domain test
+            ctx.cov['disagreements_checked'] += 1
+            ctx.broke('correspondence', 'kekule-component-domain', f'{origin}: {k}: model {got[i][:40]!r} harness {dom}'[:800])
+        if origin == 'recorded' and not dom:
+            ctx.cov['disagreements_checked'] += 1
+            ctx.broke('relational', 'prepared-component-outside-domain', f'{k}'[:800])
+            if cur is not None:
+                _state.setdefault('bad', []).append(('prepared-component-outside-domain', cur))
+        if dom and not pyr:
+            ctx.dist('ks:in-the-domain-of-search_sound_partial')
         if got is not None and not ks_agree(got[i], status, ys, ycap):
             ctx.cov['disagreements_checked'] += 1
             ctx.broke('correspondence', 'kekule-component-search',
@@ -1973,6 +2101,8 @@ def correspond_conversions(ctx):
         mols.append((f'small-ring-fusion:{name}#{j}', m))
     for j, (name, m) in enumerate(phenylenes()):
         mols.append((f'phenylene:{name}#{j}', m))
+    for j, (name, m) in enumerate(pi_complexes(rng, 90 if ctx.quick else None)):
+        mols.append((f'pi-complex:{name}#{j}', m))
     mols += molgen.corpus(rng, 280 if ctx.quick else 4200)
     n_gen = 300 if ctx.quick else 2500
     for i in range(n_gen):
@@ -2097,6 +2227,7 @@ def property_failures(mol, rng=None, enum=True, perms=1):
     st, ret = outcome(lambda: k2.kekule())
     if st != 'ok' or not eq_snap(k, k2):
         add('kekule-not-idempotent', f'{st} {diff_snap(k, k2)}')
+    fails += coordinate_failures(k)
     t = k.copy()
     st, ret = outcome(lambda: t.thiele())
     if st != 'ok':
@@ -2281,6 +2412,29 @@ def search(ctx):
         except Exception:
             continue
         try_mol(m, 'disagreeing case ' + name)
+    # neighbourhood of the disagreeing cases: the same molecules with a ring atom (substituted / ring-fusion positions
+    # first) bound to a metal by a coordinate bond, then the family of pi complexes
+    for name, ints in list(_state.get('bad', []))[:40]:
+        if time.time() - t0 > budget * 0.6 or isinstance(ints, dict):
+            continue
+        try:
+            m, _ = wire.ints_to_mol(list(ints), calc=True)
+            ring_atoms = sorted({x for r in m.sssr for x in r if m._atoms[x].atomic_number in (6, 7)},
+                                key=lambda x: -len(m._bonds[x]))
+            for x in ring_atoms[:4]:
+                if any(int(b) == 8 for b in m._bonds[x].values()):
+                    continue
+                mm, _ = wire.ints_to_mol(edit_ints(list(ints), metal=(24, 0, {x})), calc=True)
+                try_mol(mm, f'disagreeing case {name} with a coordinate bond at atom {x}')
+        except Exception:
+            continue
+    for tag, m in pi_complexes():
+        if time.time() - t0 > budget * 0.75:
+            break
+        try:
+            try_mol(m, 'pi-complex ' + tag)
+        except Exception:
+            continue
     for e in entries:
         if time.time() - t0 > budget / 2:
             break
